@@ -243,6 +243,7 @@ def c01(ctx):
     codec.cell_codec(ctx)
     codec.pool_codec(ctx)
     codec.pool_load(ctx)
+    codec.val_conv(ctx)
     from .rules import schema, streams
     schema.table_bits(ctx)
     schema.bits_disjoint(ctx)
@@ -321,6 +322,8 @@ def c07(ctx):
     dml.gate2(ctx)
     validity.info_valid(ctx)
     validity.cat_arms(ctx)
+    from .rules import codec as _codec
+    _codec.val_conv(ctx)
     prog = ctx.prog
     inv = inventory(prog)
     ctx.rule("PANIC(validators)", PANIC_TEXT)
@@ -342,6 +345,7 @@ def c05(ctx):
     validity.info_valid(ctx)
     validity.cat_arms(ctx)
     dml.ord1(ctx)
+    dml.upd_align(ctx)
     dml.key_set(ctx)
     dml.del_only_retain(ctx)
     dml.pairs(ctx)
@@ -385,6 +389,7 @@ def c20(ctx):
     _dml.cap_panic_guard(ctx)
     from .rules import codec as _codec
     _codec.short_ref_bound(ctx, "LIMIT-SYM")
+    _codec.ref_zero_extended(ctx, "LIMIT-SYM")
     _dml.rows_loaded(ctx)
     from .rules import streams as _streams
     ctx.rule("NAME-1", "streamname::is_valid admits exactly the names whose encoded form has at most 31 UTF-16 units (table names validated with the marker character counted)")
@@ -411,6 +416,7 @@ def c03(ctx):
     dml.info_key(ctx)
     dml.limits(ctx)
     dml.rows_loaded(ctx)
+    dml.upd_align(ctx)
     from .rules import flush
     flush.dirty1(ctx)
     flush.dirty2(ctx)
